@@ -54,8 +54,8 @@ def main(argv):
                        capture_output=True)
         r0 = sh([PY, demo], env=env, cwd=tmp, timeout=1800)
         log["demo_clean_rc"] = r0.returncode
-        p = sh(["git", "-C", wt, "apply", os.path.join(os.path.abspath(src),
-                                                        "patch.diff")])
+        p = sh(["git", "-C", wt, "apply", "--3way",
+                os.path.join(os.path.abspath(src), "patch.diff")])
         if p.returncode:
             print("patch does not apply:", p.stderr)
             return 2
